@@ -388,6 +388,7 @@ class RecorderDomain(Domain):
         self.count = count
         self.exits = []
         self.derefs = {}       # (node id, expr text) -> (node, state, expr)
+        self.deref_sites = set()
         self._cur = None
         self.events = []
 
@@ -503,6 +504,8 @@ class RecorderDomain(Domain):
         v = state.env.get(('F', 'self', fld))
         if v is None:
             return
+        if self._cur is not None:
+            self.deref_sites.add((self._cur.line, norm(whole)))
         if self.is_none(v, state) is not False and self._cur is not None:
             key = (self._cur.id, norm(whole))
             if key not in self.derefs:
